@@ -74,21 +74,21 @@ func init() {
 					cl, _ := parseRes(rr)
 					for _, kind := range []string{"buffer", "builder", "bufio"} {
 						cl2, f2 := parseRes(g.do("renderbuf " + w + " " + kind))
-						if !known && (cl2 != "err:no-decoration" || (f2["out"] != "-" && f2["out"] != "")) {
+						if !known && (!strings.HasPrefix(cl2, "err") || (f2["out"] != "-" && f2["out"] != "")) {
 							viol = append(viol, fmt.Sprintf("text table set to unknown decoration %q rendered into a %s: %s", name, kind, cl2))
 						}
 					}
 					if !known {
 						ar := g.do("autorender " + t + " " + hx(name))
 						ca, fa := parseRes(ar)
-						if ca != "err:no-decoration" || fa["res2"] != "err:no-decoration" {
+						if !strings.HasPrefix(ca, "err") || !strings.HasPrefix(fa["res2"], "err") {
 							viol = append(viol, fmt.Sprintf("auto.Render/RenderTo with unknown style %q did not fail closed: %s / %s", name, ca, fa["res2"]))
 						}
 					}
 					rs := g.do("renderstr " + w)
 					_, f := parseRes(rs)
 					if !known {
-						if cl != "err:no-decoration" {
+						if !strings.HasPrefix(cl, "err") {
 							viol = append(viol, fmt.Sprintf("text table set to unknown decoration %q rendered: %s", name, cl))
 						}
 						if f["str"] != "-" {
